@@ -821,6 +821,11 @@ def check(prog, rep):
     check_labels(prog, rep, m)
     check_precision(prog, rep, m)
     check_formulas(prog, rep, m)
+    from ..sharedrules import check_values_keep_dtype
+    for fn in ('binary', 'reclassify'):
+        if m.funcs.get(fn) is not None:
+            check_values_keep_dtype(prog, rep, 'K4-dtype', m.funcs[fn])
+    rep.floor('K4-dtype', 2)
     # the public classifiers are glue around the dispatch: raster in as given, backend result out as it is
     from ..sharedrules import check_dispatch_passthrough
     for fn in ('binary', 'reclassify', 'quantile', 'natural_breaks', 'equal_interval'):
